@@ -531,3 +531,40 @@ Definition bop_writes (o : bop) : option Z :=
   | BWriteString h _ _ | BReverse h _ _ | BSwap h _ _ => Some h
   | _ => None
   end.
+
+(* ------------------------------------------------------------------------------------------
+   The whole manual-memory state of a VM: the manual heap and the byte buffers, with one
+   operation alphabet, and its specification (two finite maps of arrays). *)
+Inductive memop := OpM (o : mop) | OpB (o : bop).
+Inductive memres := ResM (r : mres) | ResB (r : bres).
+Definition memstate := (mheap * bstate)%type.
+Definition memspec := (spec * smap)%type.
+Definition mem_empty : memstate := (mh_empty, bs_empty).
+Definition memspec_empty : memspec := (sp_empty, []).
+
+Definition mem_step (st : memstate) (o : memop) : memstate * memres :=
+  match o with
+  | OpM o => let '(s', r) := mh_step (fst st) o in ((s', snd st), ResM r)
+  | OpB o => let '(b', r) := b_step (snd st) o in ((fst st, b'), ResB r)
+  end.
+
+Definition memspec_step (sp : memspec) (o : memop) (hint : memres) : memspec * memres :=
+  match o, hint with
+  | OpM o, ResM h => let '(sp', r) := spec_step (fst sp) o h in ((sp', snd sp), ResM r)
+  | OpB o, ResB h => let '(m', r) := bspec_step (snd sp) o h in ((fst sp, m'), ResB r)
+  | _, _ => (sp, ResB BBad)
+  end.
+
+Fixpoint mem_run (st : memstate) (os : list memop) : memstate * list memres :=
+  match os with
+  | [] => (st, [])
+  | o :: r => let '(s1, x) := mem_step st o in let '(s2, xs) := mem_run s1 r in (s2, x :: xs)
+  end.
+Definition mem_exec (st : memstate) (os : list memop) : memstate := fold_left (fun s o => fst (mem_step s o)) os st.
+
+Fixpoint memspec_run (sp : memspec) (os : list memop) (hints : list memres) : memspec * list memres :=
+  match os, hints with
+  | o :: r, x :: xs =>
+      let '(sp1, y) := memspec_step sp o x in let '(sp2, ys) := memspec_run sp1 r xs in (sp2, y :: ys)
+  | _, _ => (sp, [])
+  end.
